@@ -95,19 +95,26 @@ def proj_cases(draw):
     return {'n': n, 'lb': lb, 'ub': ub, 'x': x, 'xk': xk, 'ys': ys, 'ratio': ratio}
 
 
+def _nosub(a):
+    # XLA on CPU flushes subnormal numbers to zero; they are not part of the input domain
+    a = onp.array(a, dtype=float)
+    a[onp.abs(a) < 1e-290] = 0.0
+    return a
+
+
 def check_proj(case):
     import jax.numpy as np
     from optimism import TrustRegionSPG as SPG
-    lb, ub = onp.array(case['lb']), onp.array(case['ub'])
+    lb, ub = _nosub(case['lb']), _nosub(case['ub'])
     bounds = np.array(onp.column_stack([lb, ub]))
-    x = onp.array(case['x'])
-    xk = onp.array(case['xk'])
+    x = _nosub(case['x'])
+    xk = _nosub(case['xk'])
     fails = []
     P = onp.asarray(SPG.project(np.array(x), bounds))
     if not onp.array_equal(P, onp.minimum(onp.maximum(x, lb), ub)):
         fails.append(Failure('project-clamp', 'project(x) is not the componentwise clamp'))
     for y in case['ys']:
-        y = onp.array(y)
+        y = _nosub(y)
         v = float((x - P) @ (y - P))
         if v > 1e-12 * (1 + onp.abs(x).max() + onp.abs(y).max()) ** 2:
             fails.append(Failure('project-closest', 'projection inequality (x-P).(y-P) <= 0 violated by %.3e for a feasible y' % v))
@@ -127,7 +134,7 @@ def check_proj(case):
         if d > Delta * (1 + 1e-9) + 8e-12 * onp.linalg.norm(x - xk):
             fails.append(Failure('tr-project-ball', 'project_onto_tr: distance to the centre %.9g exceeds the radius %.9g (ratio |x-xk|/radius %.1e)'
                                  % (d, Delta, onp.linalg.norm(x - xk) / Delta)))
-        if case['ratio'] <= 1.0 and not onp.allclose(r, P, rtol=0, atol=1e-12 * (1 + onp.abs(P).max())):
+        if case['ratio'] <= 0.999 and not onp.allclose(r, P, rtol=0, atol=1e-12 * (1 + onp.abs(P).max())):
             fails.append(Failure('tr-project-inside', 'box projection already inside the trust region but project_onto_tr moved it'))
     kinds = set()
     for l, u in zip(lb, ub):
@@ -193,6 +200,12 @@ def reference_minimiser(n, coef, lb, ub, x_start):
     return x, kkt
 
 
+def _softplus_curvature(n, coef):
+    """sum_j s_j |w_j|^2 / 4: global bound on the Hessian of the softplus terms."""
+    A, b, q, r, c, a, s_, w, d = obj.unpack(onp, n, onp.array(coef['b']), onp.array(coef['design']))
+    return float(onp.sum(onp.abs(s_) * onp.sum(w * w, axis=1)) / 4.0)
+
+
 def check_solver(case):
     import jax.numpy as np
     from optimism import Objective, TrustRegionSPG as SPG
@@ -200,9 +213,9 @@ def check_solver(case):
     fv, fabs, fg, fh = obj.raw_functions(n)
     coef = case['coef']
     p = obj.params(np, coef, Objective)
-    lb, ub = onp.array(case['lb']), onp.array(case['ub'])
+    lb, ub = _nosub(case['lb']), _nosub(case['ub'])
     bounds = np.array(onp.column_stack([lb, ub]))
-    x0 = onp.array(case['x0'])
+    x0 = onp.minimum(onp.maximum(_nosub(case['x0']), lb), ub)
     o = get_objective(n)
     o.p = p
     g0 = onp.asarray(fg(np.array(x0), p))
@@ -231,15 +244,21 @@ def check_solver(case):
     if reported and not onp.array_equal(reported[-1], xr):
         fails.append(Failure('returns-last', 'returned point differs from the last reported iterate', **data))
     seq = [x0] + reported
-    for k, x in enumerate(seq + [xr]):
-        if not onp.all(onp.isfinite(x)):
-            fails.append(Failure('finite', 'iterate %d is not finite' % k, **data))
-            return Result(fails, nontrivial=True)
-        delta = 16 * EPS * (onp.abs(x) + s['tr_size'])
-        viol = max((lb - x - delta).max(), (x - ub - delta).max())
-        if viol > 0:
-            fails.append(Failure('feasible', 'reported iterate %d violates its bounds by %.3e (%s line search)'
-                                 % (k, viol + delta.max(), 'non-monotone' if s['nonmonotone'] else 'monotone'), **data))
+    allx = onp.array(seq + [xr])
+    if not onp.all(onp.isfinite(allx)):
+        fails.append(Failure('finite', 'a reported iterate is not finite', **data))
+        return Result(fails, nontrivial=True)
+    # iterates are formed as x + z with z accumulated: rounding is relative to the largest magnitude a coordinate had during
+    # the solve (and the largest step), not to its current value
+    hist = onp.abs(allx).max(axis=0)
+    stepmax = max(s['tr_size'], onp.abs(onp.diff(allx, axis=0)).max() if len(allx) > 1 else 0.0)
+    delta = 16 * EPS * (hist + stepmax)
+    for k, x in enumerate(allx):
+        over = onp.maximum(lb - x, x - ub)
+        if (over > delta).any():
+            i = int(onp.argmax(over - delta))
+            fails.append(Failure('feasible', 'reported iterate %d violates the bounds of coordinate %d by %.3e (allowance %.1e, %s line search)'
+                                 % (k, i, over[i], delta[i], 'non-monotone' if s['nonmonotone'] else 'monotone'), **data))
             break
     vals = [float(fv(np.array(x), p)) for x in seq]
     absv = [float(fabs(np.array(x), p)) for x in seq]
@@ -270,9 +289,17 @@ def check_solver(case):
             lam = onp.linalg.eigvalsh(0.5 * (H + H.T))
             if kkt < 1e-10 * (1 + opt0) and lam[0] > 0:
                 classes.append('convex-reference')
-                if onp.linalg.norm(xr - xs) > 10 * tol / lam[0] + 1e-9 * (1 + onp.linalg.norm(xs)):
-                    fails.append(Failure('convex-minimiser', 'returned point is %.3e from the bound-constrained minimiser (tol/lambda_min %.1e)'
-                                         % (onp.linalg.norm(xr - xs), tol / lam[0]), **data))
+                # error bound for strongly convex problems from the projected-gradient residual r: |x - x*| <= (1 + L)/m |r|,
+                # with GLOBAL constants: m = smallest eigenvalue of the quadratic part, L = its largest + curvature of the other terms
+                Hr = onp.asarray(fh(np.array(xr), p))
+                m_glob = coef['lam_min']
+                L_glob = max(coef['lam_max'], onp.linalg.eigvalsh(0.5 * (Hr + Hr.T))[-1], lam[-1]) * 4 + _softplus_curvature(n, coef)
+                bound = 1.01 * (1 + L_glob) / m_glob * tol + 1e-9 * (1 + onp.linalg.norm(xs))
+                if m_glob > 0 and coef['family'] != 'quartic' and onp.linalg.norm(xr - xs) > bound:
+                    fails.append(Failure('convex-minimiser', 'returned point is %.3e from the bound-constrained minimiser (error bound %.1e)'
+                                         % (onp.linalg.norm(xr - xs), bound), **data))
+                elif coef['family'] == 'quartic' and onp.linalg.norm(xr - xs) > 1.01 * (1 + lam[-1] * 4 + 12 * abs(coef['design'][n * n]) * float(onp.abs(x0).max() + onp.abs(xs).max() + 1) ** 2) / m_glob * tol + 1e-9 * (1 + onp.linalg.norm(xs)):
+                    fails.append(Failure('convex-minimiser', 'returned point is %.3e from the bound-constrained minimiser' % onp.linalg.norm(xr - xs), **data))
     elif 'still too small' in log:
         classes.append('exit-tr-too-small')
     else:
